@@ -99,11 +99,11 @@ def run(tier):
                 if again < 2:
                     continue
             verd.witness(f, "%s@%s/%s" % (r["k"], r["l"], r["cause"]) if f != "no-return" else "%s/%s" % (r["l"], "ctx" if r["cause"].startswith("ctx") else r["cause"]),
-                         "%s at %s, cause %s: returned=%s res=%s after %d ms, done closed=%s, library goroutines left=%d%s"
+                         ("after broker traffic '%s': " % r["pre"] if r.get("pre") else "") + "%s at %s, cause %s: returned=%s res=%s after %d ms, done closed=%s, library goroutines left=%d%s"
                          % (r["k"], r["l"], r["cause"], r["returned"], r["res"], r["dt_ms"], r["doneclosed"], r["leak"], (" also=%s ret=%s" % (r["also"], r["alsoret"])) if r["also"] else ""),
                          {"scenario": byid[b["id"]], "result": r})
     rc = verd.finish()
-    distinct = len({(r["k"], r["l"], r["cause"], r["also"]) for r in ok if r["steered"]})
+    distinct = len({(r["k"], r["l"], r["cause"], r["also"], r.get("pre", "")) for r in ok if r["steered"]})
     vlib.write_evidence(PID, tier, "model_checking", {
         "states": states, "transitions": gen, "traces_validated_against_impl": len(ok), "non_vacuity": nv,
         "cases_from_model": len(cases), "pair_cases": len(scs) // reps - len(cases), "unsteered": len(rep["unsteered"]),
